@@ -338,8 +338,48 @@ def make_driver(api, es, serve, wrappers, header_path):
                 body = "%s r = %s; %s x = %s; retv = %s;" % (exp_ret, call, exp_ret, val(m["ret"], 40), eq(m["ret"], "r", "x"))
             c.append("static void %s(void) { int retv = 0; %s o = make_%d(); NLOG = 0; g_cont = &o.container; poison(); %s emit(%d, %d, 0, retv); }" % (tn, ty, first, body, ei, fi))
             tests.append(tn)
-    c.append("int main(void) { %s return 0; }" % " ".join(t + "();" for t in tests))
+    # consuming entries again, on an object whose reference-counted context is EMPTY (CArc::default(): all three fields null), in a second
+    # process (`driver empty`): a clone of an empty context is an empty context, nothing may be called through the null pointers
+    etests = []
+    for ei, e in enumerate(es):
+        if e["ck"] != "Arc":
+            continue
+        t = api["traits"][e["ti"]]
+        first = variants[e["variant"]][0]
+        ty = "struct " + e["this_ty"]
+        for fi, m in enumerate(t["methods"]):
+            name = serve.get((ei, fi))
+            w = wmap.get(name) if name else None
+            if m["recv"] != "own" or w is None or m["ret"] == "self":
+                continue
+            ps = split_params(w["params"])
+            if "*" in (ps[0] if ps else "*") or nows(ps[0]) != nows(ty + " self"):
+                continue
+            if [nows(p) for p in ps[1:]] != [nows("%s %s" % (H.c_type(k, e["cont_ty"]), n)) for k, n in m["args"]]:
+                continue
+            args = "".join(", " + val(k, i) for i, (k, _) in enumerate(m["args"]))
+            call = "%s(o%s)" % (name, args)
+            tn = "etest_%d_%d" % (ei, fi)
+            c.append("static void %s(void) { %s o = make_%d(); memset(&o.container.context, 0, sizeof o.container.context); NLOG = 0; printf(\"%d %d start\\n\"); fflush(stdout); %s; emit(%d, %d, 0, 1); }"
+                     % (tn, ty, first, ei, fi + 1000, call, ei, fi + 1000))
+            etests.append(tn)
+    c.append("int main(int argc, char **argv) { (void)argv; if (argc > 1) { %s return 0; } %s return 0; }" % (" ".join(t + "();" for t in etests), " ".join(t + "();" for t in tests)))
     return "\n".join(c) + "\n"
+
+
+def _run_twice(exe):
+    rc, o, e, _ = vlib.sh([exe], timeout=30)
+    if rc != 0:
+        return None, "driver crashed rc=%s: %s" % (rc, (o + e)[-500:])
+    rc2, o2, e2, _ = vlib.sh([exe, "empty"], timeout=30)
+    lines2 = [l for l in o2.split("\n") if l.strip()]
+    out2 = [l for l in lines2 if not l.endswith("start")]
+    if rc2 != 0:
+        last = [l for l in lines2 if l.endswith("start")]
+        if last:
+            a, b = last[-1].split()[:2]
+            out2.append("%s %s -7 7 0" % (a, b))
+    return o + "\n".join(out2) + "\n", ""
 
 
 def compile_run(src_text, workdir, name, std="c99", extra=""):
@@ -350,10 +390,7 @@ def compile_run(src_text, workdir, name, std="c99", extra=""):
     rc, o, e, _ = vlib.sh("gcc -std=%s -O0 -w %s -o %s %s" % (std, extra, exe, p), timeout=120)
     if rc != 0:
         return None, "driver does not compile: " + e[:1500]
-    rc, o, e, _ = vlib.sh([exe], timeout=30)
-    if rc != 0:
-        return None, "driver crashed rc=%s: %s" % (rc, (o + e)[-500:])
-    return o, ""
+    return _run_twice(exe)
 
 
 def syntax_check(path, lang="c"):
@@ -449,3 +486,222 @@ def shrink_api_line(line, pred, budget=120):
                 api, changed = a, True
                 break
     return api_line(api, " ".join(hdr[1:]), int(hdr[0]))
+
+
+# ------------------------------------------------------------------------------------------------ C++ mode
+def cpp_vtables(api):
+    """trait indices in the order their vtables appear in the C++ header"""
+    order = []
+    for g in api["groups"]:
+        for ti in g["traits"]:
+            if ti not in order:
+                order.append(ti)
+    for ob in api["objects"]:
+        if ob["trait"] not in order:
+            order.append(ob["trait"])
+    return order
+
+
+def model_line_cpp(line):
+    api = line_api(line)
+    vts = cpp_vtables(api)
+    rows = [str(len(vts))]
+    for ti in vts:
+        t = api["traits"][ti]
+        rows.append(str(len(t["methods"])))
+        rows.append(srow(t["name"]))
+        first = True
+        for m in t["methods"]:
+            decl = H.fn_decl_cpp(m)
+            mm = re.match(r"(?s)(?P<ret>.+?)\(\*(?P<name>\w+)\)\((?P<cont>.*? \*|.*? )cont(?P<args>.*)\);$", decl)
+            rows.append({"ref": "1", "mut": "0", "own": "2"}[m["recv"]])
+            rows.append(srow(m["name"]))
+            rows.append(srow(("" if first else "\n    ") + mm.group("ret")))
+            rows.append(srow(mm.group("args")))
+            first = False
+    rows.append(str(len(api["groups"])))
+    for g in api["groups"]:
+        rows.append(str(len(g["traits"])))
+        rows.append(srow(g["name"]))
+        for ti in g["traits"]:
+            rows.append(srow(api["traits"][ti]["name"]))
+    return "117 | " + " ; ".join(rows)
+
+
+MEMBER_RE = re.compile(r"    inline (?P<ret>[^\n;{}()]+?)\s*(?P<name>\w+)\((?P<params>[^)]*)\) (?P<qual>(const |&& )?)noexcept \{\n(?P<body>.*?)\n    \}\n", re.S)
+
+
+def extract_wrappers_cpp(out, api):
+    """member functions the tool added to every group class and every CGlueTraitObj specialisation, in output order"""
+    ws = []
+    for gi, g in enumerate(api["groups"]):
+        m = re.search(r"\n    ~%s\(\) noexcept \{\n        mem_drop\(std::move\(container\)\);\n    \}\n\n    typedef CGlueCtx Context;\n(.*?)\n\};" % g["name"], out, re.S)
+        if not m:
+            continue
+        for w in MEMBER_RE.finditer(m.group(1) + "\n"):
+            ws.append({"kind": 0, "idx": gi, "name": w.group("name"), "ret": w.group("ret").strip(), "params": w.group("params"), "qual": w.group("qual").strip(),
+                       "text": w.group(0).strip()})
+    for vi, ti in enumerate(cpp_vtables(api)):
+        n = api["traits"][ti]["name"]
+        m = re.search(r"struct CGlueTraitObj<T, %sVtbl<CGlueObjContainer<T, C, R>>, C, R> \{.*?typedef C Context;\n(.*?)\n\};" % n, out, re.S)
+        if not m:
+            continue
+        for w in MEMBER_RE.finditer(m.group(1) + "\n"):
+            ws.append({"kind": 1, "idx": vi, "name": w.group("name"), "ret": w.group("ret").strip(), "params": w.group("params"), "qual": w.group("qual").strip(),
+                       "text": w.group(0).strip()})
+    return ws
+
+
+PRELUDE_CPP = r"""
+#include <cstdio>
+#include <cstring>
+#include <utility>
+static int LOG[128]; static int NLOG;
+static void lg(int x) { if (NLOG < 128) LOG[NLOG++] = x; }
+static char inst_cell, ret_cell; static char ctx_cell[4];
+static uint8_t buf[64]; static Pair gp[8];
+static const void *g_cont;
+static bool cbfn(void *c, Pair p) { (void)c; (void)p; return true; }
+static Pair mk_pair(uint32_t a, uint64_t b) { Pair p; p.a = a; p.b = b; return p; }
+static CSliceRef<uint8_t> mk_slice(const uint8_t *d, uintptr_t l) { CSliceRef<uint8_t> s; s.data = d; s.len = l; return s; }
+static PairCallback mk_cb(void *c) { PairCallback k; k.context = c; k.func = cbfn; return k; }
+static void mock_inst_drop(void *p) { lg(4); lg(p == (void *)&inst_cell); }
+static const void *mock_clone(const void *p) { lg(1); lg(p == (const void *)&ctx_cell[0]); return &ctx_cell[1]; }
+static void mock_ctx_drop(const void *p) { if (p == (const void *)&ctx_cell[1]) lg(3); else if (p == (const void *)&ctx_cell[0]) lg(5); else lg(8); }
+static void emit(int e, int f, int status, int retv) { int i; printf("%d %d %d", e, f, status); for (i = 0; i < NLOG; i++) printf(" %d", LOG[i]); printf(" 7 %d\n", retv); }
+"""
+
+
+def cpp_val(kind, pos):
+    return val(kind, pos).replace("struct Pair", "Pair")
+
+
+def cpp_inst_init(e, target, cell="inst_cell"):
+    if e["ik"] == "Box":
+        return "%s.instance = &%s; %s.drop_fn = mock_inst_drop;" % (target, cell, target)
+    return "%s = &%s;" % (target, cell)
+
+
+def make_driver_cpp(api, es, serve, wrappers, header_path):
+    """serve: {(ei, fi): member function name or None}"""
+    c = ['#include "%s"' % header_path, PRELUDE_CPP]
+    wmap = {}
+    for w in wrappers:
+        wmap.setdefault((w["kind"], w["idx"], w["name"]), w)
+    vts = cpp_vtables(api)
+    gidx = {g["name"]: i for i, g in enumerate(api["groups"])}
+    variants = {}
+    for ei, e in enumerate(es):
+        variants.setdefault(e["variant"], []).append(ei)
+    conts = {}
+    for ei, e in enumerate(es):
+        t = api["traits"][e["ti"]]
+        I, C = H.INNER_CPP[e["ik"]], ("CArc<void>" if e["ck"] == "Arc" else "void")
+        if e["obj"]:
+            cont = "CGlueObjContainer<%s, %s, %sRetTmp<%s>>" % (I, C, t["name"], C)
+            objty = "CGlueTraitObj<%s, %sVtbl<%s>, %s, %sRetTmp<%s>>" % (I, t["name"], cont, C, t["name"], C)
+        else:
+            cont = "%sContainer<%s, %s>" % (e["cont"], I, C)
+            objty = "%s<%s, %s>" % (e["cont"], I, C)
+        conts[ei] = (cont, objty)
+        c.append("typedef %s Cont%d; typedef %s Obj%d;" % (cont, ei, objty, ei))
+        for fi, m in enumerate(t["methods"]):
+            recv = {"ref": "const Cont%d *cont" % ei, "mut": "Cont%d *cont" % ei, "own": "Cont%d cont" % ei}[m["recv"]]
+            params = "".join(", %s a%d" % (("Cont%d" % ei) if k == "self" else H.KINDS[k][1], i) for i, (k, _) in enumerate(m["args"]))
+            rt = ("Cont%d" % ei) if m["ret"] == "self" else H.KINDS[m["ret"]][1]
+            if m["recv"] == "own":
+                contok = ("cont.instance.instance == (void *)&inst_cell" if e["ik"] == "Box" else "cont.instance == (void *)&inst_cell")
+            else:
+                contok = "(const void *)cont == g_cont"
+            argsok = " && ".join([eq(k, "a%d" % i, "e%d" % i) for i, (k, _) in enumerate(m["args"])]) or "1"
+            decls = "".join(" %s e%d = %s;" % (H.KINDS[k][1], i, cpp_val(k, i)) for i, (k, _) in enumerate(m["args"]))
+            if m["ret"] == "void":
+                ret = ""
+            elif m["ret"] == "self":
+                ret = " { Cont%d r = Cont%d(); %s %s return r; }" % (
+                    ei, ei, cpp_inst_init(e, "r.instance", "ret_cell"),
+                    "r.context.instance = &ctx_cell[2]; r.context.clone_fn = mock_clone; r.context.drop_fn = mock_ctx_drop;" if e["ck"] == "Arc" else "")
+            else:
+                ret = " return %s;" % cpp_val(m["ret"], 40)
+            c.append("static %s mock_%d_%d(%s%s) {%s lg(2); lg(%d); lg(%d); lg(%s); lg(%s);%s }" % (rt, ei, fi, recv, params, decls, ei, fi, contok, argsok, ret))
+        c.append("static const %sVtbl<Cont%d> vt_%d = { %s };" % (t["name"], ei, ei, ", ".join("mock_%d_%d" % (ei, fi) for fi in range(len(t["methods"])))))
+    tests = []
+    for ei, e in enumerate(es):
+        t = api["traits"][e["ti"]]
+        eis = variants[e["variant"]]
+        build = "Obj%d o;" % ei if False else "Obj%d o;" % eis[0]
+        for k in eis:
+            build += " o.%s = &vt_%d;" % ("vtbl" if e["obj"] else "vtbl_" + es[k]["trait"].lower(), k)
+        build += " " + cpp_inst_init(e, "o.container.instance")
+        if e["ck"] == "Arc":
+            build += " o.container.context.instance = &ctx_cell[0]; o.container.context.clone_fn = mock_clone; o.container.context.drop_fn = mock_ctx_drop;"
+        for fi, m in enumerate(t["methods"]):
+            name = serve.get((ei, fi))
+            tn = "test_%d_%d" % (ei, fi)
+            key = (1, vts.index(e["ti"]), name) if e["obj"] else (0, gidx[e["cont"]], name)
+            w = wmap.get(key) if name else None
+            if w is None:
+                c.append("static void %s(void) { NLOG = 0; emit(%d, %d, -1, 0); }" % (tn, ei, fi))
+                tests.append(tn)
+                continue
+            ps = split_params(w["params"])
+            exp_params = [nows("%s %s" % ("CGlueC" if k == "self" else H.KINDS[k][1], n)) for k, n in m["args"]]
+            status = 0
+            if [nows(p) for p in ps] != exp_params:
+                status = -3
+            elif (w["qual"] == "&&") != (m["recv"] == "own") or (w["qual"] == "const") != (m["recv"] == "ref"):
+                status = -2
+            if status:
+                c.append("static void %s(void) { NLOG = 0; emit(%d, %d, %d, 0); }" % (tn, ei, fi, status))
+                tests.append(tn)
+                continue
+            args = ", ".join(cpp_val(k, i) for i, (k, _) in enumerate(m["args"]))
+            call = "%s.%s(%s)" % ("std::move(o)" if m["recv"] == "own" else "o", name, args)
+            if m["ret"] == "void":
+                body = "%s; retv = 1;" % call
+            elif m["ret"] == "self":
+                inst = "r.container.instance.instance" if e["ik"] == "Box" else "r.container.instance"
+                vt = " && ".join("r.%s == o.%s" % (f, f) for f in (["vtbl"] if e["obj"] else ["vtbl_" + es[k]["trait"].lower() for k in eis]))
+                body = "auto r = %s; retv = ((void *)%s == (void *)&ret_cell) ? ((%s) ? 1 : 2) : 0; mem_forget(r.container);" % (call, inst, vt)
+            else:
+                rt = H.KINDS[m["ret"]][1]
+                body = "%s r = %s; %s x = %s; retv = %s;" % (rt, call, rt, cpp_val(m["ret"], 40), eq(m["ret"], "r", "x"))
+            c.append("static void %s(void) { int retv = 0; NLOG = 0; { %s g_cont = &o.container; %s lg(999); } emit(%d, %d, 0, retv); }" % (tn, build, body, ei, fi))
+            tests.append(tn)
+    etests = []
+    for ei, e in enumerate(es):
+        if e["ck"] != "Arc":
+            continue
+        t = api["traits"][e["ti"]]
+        eis = variants[e["variant"]]
+        build = "Obj%d o;" % eis[0]
+        for k in eis:
+            build += " o.%s = &vt_%d;" % ("vtbl" if e["obj"] else "vtbl_" + es[k]["trait"].lower(), k)
+        build += " " + cpp_inst_init(e, "o.container.instance")
+        build += " o.container.context.instance = nullptr; o.container.context.clone_fn = nullptr; o.container.context.drop_fn = nullptr;"
+        for fi, m in enumerate(t["methods"]):
+            name = serve.get((ei, fi))
+            key = (1, vts.index(e["ti"]), name) if e["obj"] else (0, gidx[e["cont"]], name)
+            w = wmap.get(key) if name else None
+            if m["recv"] != "own" or w is None or m["ret"] == "self" or w["qual"] != "&&":
+                continue
+            if [nows(p) for p in split_params(w["params"])] != [nows("%s %s" % (H.KINDS[k][1], n)) for k, n in m["args"]]:
+                continue
+            args = ", ".join(cpp_val(k, i) for i, (k, _) in enumerate(m["args"]))
+            tn = "etest_%d_%d" % (ei, fi)
+            c.append("static void %s(void) { NLOG = 0; printf(\"%d %d start\\n\"); fflush(stdout); { %s std::move(o).%s(%s); } emit(%d, %d, 0, 1); }"
+                     % (tn, ei, fi + 1000, build, name, args, ei, fi + 1000))
+            etests.append(tn)
+    c.append("int main(int argc, char **argv) { (void)argv; if (argc > 1) { %s return 0; } %s return 0; }" % (" ".join(t + "();" for t in etests), " ".join(t + "();" for t in tests)))
+    return "\n".join(c) + "\n"
+
+
+def compile_run_cpp(src_text, workdir, name):
+    os.makedirs(workdir, exist_ok=True)
+    p = os.path.join(workdir, name + ".cpp")
+    open(p, "w").write(src_text)
+    exe = os.path.join(workdir, name + ".exe")
+    rc, o, e, _ = vlib.sh("g++ -std=c++11 -O0 -w -o %s %s" % (exe, p), timeout=180)
+    if rc != 0:
+        return None, "driver does not compile: " + e[:2500]
+    return _run_twice(exe)
